@@ -70,7 +70,7 @@ def rand_loads(rng, ny, mag=1e4):
 def cases(tier, seed):
     rng = np.random.default_rng(10000 + seed)
     out = []
-    n = 60 if tier == "quick" else 600
+    n = 60 if tier == "quick" else 1800
     for k in range(n):
         half = "full" if k % 3 == 0 else "left"
         ny = int(rng.integers(2, 16))
@@ -78,9 +78,9 @@ def cases(tier, seed):
             ny = max(3, ny | 1)
         out.append(dict(kind="beam", ny=ny, half=half, seed=int(rng.integers(1 << 30)), iso=bool(k % 4 == 1),
                         logE=float(rng.uniform(9, 12)), fem=str(rng.choice(["tube", "wingbox"]))))
-    for k in range(16 if tier == "quick" else 120):
+    for k in range(16 if tier == "quick" else 360):
         out.append(dict(kind="closed", ny=int(rng.integers(2, 12)), half="left" if k % 2 else "full", seed=int(rng.integers(1 << 30))))
-    for k in range(12 if tier == "quick" else 100):
+    for k in range(12 if tier == "quick" else 300):
         half = "full" if k % 3 == 0 else "left"
         spec = M.random_spec(rng, half=half, nx=int(rng.integers(2, 4)), ny=int(rng.integers(3, 10)))
         if spec["ny"] < 3:
